@@ -22,8 +22,12 @@ def _uniq(t, prefix):
 
 def _check_pair(case):
     ea, eb, spanb = case
-    A = IT("A", list(ea), 0.0, float(NC))
-    B = IT("B", list(eb), 0.0, spanb)
+    return _check_pair_on(ea, eb, 0.0, float(NC), spanb)
+
+
+def _check_pair_on(ea, eb, LO, HI, spanb):
+    A = IT("A", list(ea), LO, HI)
+    B = IT("B", list(eb), LO, spanb)
     FA, FB = ival.fentries(ea), ival.fentries(eb)
     before = (canon(A), canon(B))
     viols = []
@@ -37,7 +41,7 @@ def _check_pair(case):
     else:
         dgot = ents(d)
         msg = ival.compare_entries(dgot, ival.difference(FA, FB), True, "difference")
-        if msg is None and (d.minTimestamp, d.maxTimestamp) != (0.0, float(NC)):
+        if msg is None and (d.minTimestamp, d.maxTimestamp) != (LO, HI):
             msg = f"difference span ({d.minTimestamp},{d.maxTimestamp})"
         if msg is None and wellformed(d):
             msg = "difference ill-formed: " + wellformed(d)
@@ -93,9 +97,9 @@ def _check_pair(case):
                     msg = f"union label {g[2]!r} is not in time order"
                     break
         if msg is None:
-            ehi = max([F(NC)] + [x[1] for x in exp])
-            if F(u.minTimestamp) != 0 or F(u.maxTimestamp) != ehi:
-                msg = f"union span ({u.minTimestamp},{u.maxTimestamp}), expected (0,{float(ehi)})"
+            ehi = max([F(HI)] + [x[1] for x in exp])
+            if F(u.minTimestamp) != F(LO) or F(u.maxTimestamp) != ehi:
+                msg = f"union span ({u.minTimestamp},{u.maxTimestamp}), expected ({LO},{float(ehi)})"
         if msg is None and wellformed(u):
             msg = "union ill-formed: " + wellformed(u)
         if msg:
@@ -202,6 +206,11 @@ def parts(tier):
             ea = _uniq(ta, "a")
             for tb in base:
                 yield (ea, _uniq(tb, "x"), float(NC))
+        # label order must not matter: every 5th pair again with the alphabets swapped (B's labels sort before A's)
+        for i, ta in enumerate(base):
+            for j, tb in enumerate(base):
+                if (i * 31 + j) % 5 == 0:
+                    yield (_uniq(ta, "x"), _uniq(tb, "a"), float(NC))
         if not quick:
             # equal labels meeting each other, and B's span wider than A's
             two = D.cell_tiers(5, ["a", "b"])
@@ -216,6 +225,22 @@ def parts(tier):
              "and the partition consequence; non-trivial = distinct geometry pairs with at least one overlap or touch"
              % (len(base), NC),
         bounds={"cells": NC, "tiers": len(base), "thorough_adds": "2-label tiers on 5 cells, B span 8"}))
+
+    ugrid = tuple(sorted(D.ULP))
+    usets = D.interval_sets(ugrid, 2)
+
+    def gen_ulp():
+        for sa in usets:
+            for sb in usets:
+                yield (_uniq(D.labelled(sa), "a"), _uniq(D.labelled(sb), "x"), 0.0)
+
+    def chk_ulp(case):
+        ea, eb, _ = case
+        return _check_pair_on(ea, eb, ugrid[0], ugrid[-1], ugrid[-1])
+
+    ps.append(InputPart("setops-interval-pairs-ulp", gen_ulp, chk_ulp,
+                        rule="all ordered pairs of interval sets (<=2) on the ulp-neighbour grid %s: overlaps and touches that differ by one ulp" % (ugrid,),
+                        bounds={}))
 
     def gen_points():
         grid = D.unit_grid(5)
